@@ -41,6 +41,14 @@ def sf(x):
     except OverflowError: return float("inf") if x > 0 else float("-inf")
 
 
+def qs(x):
+    """exact text of a rational; hexadecimal when the numbers are long (no conversion limit, linear time)"""
+    if x is None: return "inf"
+    x = Fr(x)
+    if x.numerator.bit_length() + x.denominator.bit_length() < 4000: return str(x)
+    return "%s/%s" % (hex(x.numerator), hex(x.denominator))
+
+
 def fdisc(d):
     return [("%.17g" % sf(x)) if x is not None else "inf" for x in d]
 
@@ -169,7 +177,7 @@ def judge(ctx, rec, stats, samples, nontrivial):
     for i, (lo, hi) in zip(fin, ans):
         st = r.roots[i].status
         ev += 1
-        info = dict(rp, root=i, status=st, disc=[str(x) for x in discs[i]], disc_approx=fdisc(discs[i]), oracle=[lo, hi])
+        info = dict(rp, root=i, status=st, disc=[qs(x) for x in discs[i]], disc_approx=fdisc(discs[i]), oracle=[lo, hi])
         if hi == 0:
             ctx.violation("b:no-root-in-disc:%s:%s" % (cc, c["name"]),
                           "returned disc %d (status %s) contains no root (certified): centre (%.17g, %.17g), radius %.3g; %s %s; last phase %s"
@@ -213,7 +221,7 @@ def judge(ctx, rec, stats, samples, nontrivial):
             ctx.violation("c:root-not-covered:%s:%s" % (cc, c["name"]),
                           "root(s) near %s of %s lie in no returned disc (certified); %s"
                           % (["(%.17g, %.17g) mult %d" % (sf(tiny[j]["re"]), sf(tiny[j]["im"]), tiny[j]["mult"]) for j in js[:4]], c["name"], " ".join(opts)),
-                          dict(rp, clause="c", uncovered_roots=[[str(tiny[j]["re"]), str(tiny[j]["im"]), tiny[j]["mult"]] for j in js],
+                          dict(rp, clause="c", uncovered_roots=[[qs(tiny[j]["re"]), qs(tiny[j]["im"]), tiny[j]["mult"]] for j in js],
                                discs=[fdisc(d) for d in discs]))
             stats["VIOLATION:c:" + cc] += 1
         else: stats["c:undecided"] += 1; stats["undecided-case:c:%s %s" % (c["name"], " ".join(opts))] += 1
